@@ -286,7 +286,8 @@ def main():
               ("app/util.pn", "pub const FACTOR: i32 = 3;\n")]
     # ... and every spelling of the file names on the command line: as they are, with a leading `./` (what shell completion
     # writes), with a `./` inside; the imports name the files without
-    spellings = [lambda f: f, lambda f: "./" + f, lambda f: f.replace("/", "/./"), lambda f: "./" + f if f.startswith("lib") else f]
+    spellings = [lambda f: f, lambda f: "./" + f, lambda f: f.replace("/", "/./"), lambda f: "./" + f if f.startswith("lib") else f,
+                 lambda f: f.replace("/", "/sub/../"), lambda f: "x/../" + f]
     dorders = [(o, sp) for o in _it.permutations(range(4)) for sp in range(len(spellings))]
     dreqs = ["alpha\trun\t" + "\t".join(x for j in o for x in (spellings[sp](dfiles[j][0]), esc(dfiles[j][1]))) for o, sp in dorders]
     dres = run_harness(dreqs)
@@ -333,6 +334,16 @@ def main():
                 "why": "a pub structure with a member of type %s (N a pub constant of another module) used from a third module: 20 + 22 = 42 "
                        "in every file order; got %s" % (lt, la[:200]),
                 "files": dict(lfiles), "order": [lfiles[j][0] for j in o], "harness_request": rq})
+    # an import that climbs out of the importer's directory
+    pfiles = [("sub/main.pn", 'import "../lib.pn";\nfn main() -> i32\n{\n\treturn: seven()\n}\n'), ("lib.pn", "pub fn seven() -> i32\n{\n\treturn: 7\n}\n")]
+    for o in ((0, 1), (1, 0)):
+        pa_ = run_harness_serial(["alpha\trun\t" + "\t".join(x for j in o for x in (pfiles[j][0], esc(pfiles[j][1])))])[0]
+        ph_, pd_ = kv(pa_)
+        total += 1
+        if ph_ == "ok" and pd_.get("status") == "7":
+            agreeing += 1
+        else:
+            rep.violation("directories:parent:%d%d" % o, {"why": 'sub/main.pn imports "../lib.pn", which is among the given files: ' + pa_[:200], "files": dict(pfiles)})
     # the silent variant: the importer has a PRIVATE constant of the same name as the private constant that the spliced
     # initialiser mentions - the pub constant then has another value in the importer than in its own module (F69)
     cap = [("lib.pn", "const X: i32 = 3;\npub const Y: i32 = X + 1;\npub fn y_at_home() -> i32\n{\n\treturn: Y\n}\n"),
@@ -343,6 +354,17 @@ def main():
         rep.violation("c12:pub-constant-initialiser-captures-importers-private-name", {
             "why": "Y = X + 1 with X = 3 private to lib.pn is 4 in lib.pn; the importer, which has its own private X = 100, must see 4 too "
                    "(status 44 expected), got status %s" % cd_.get("status"), "files": dict(cap), "implementation": ca[:300]})
+    # ... and with structures: a pub structure with a member of a PRIVATE structure type, and an importer with its own private
+    # structure of that name and another layout - the two modules then disagree about the layout of the pub structure (F69b)
+    capS = [("a.pn", "struct Inner\n{\n\tv: i32,\n}\npub struct Outer\n{\n\tinner: Inner,\n\ttail: i32,\n}\npub fn tail_of(o: Outer) -> i32\n{\n\treturn: o.tail\n}\n"),
+            ("main.pn", 'import "a.pn";\nstruct Inner\n{\n\ta: i64,\n\tb: i64,\n}\nfn main() -> i32\n{\n\tvar o = Outer { inner: Inner { a: 1, b: 2 }, tail: 42 };\n\treturn: tail_of(o)\n}\n')]
+    csa = run_harness_serial(["alpha\trun\t" + "\t".join(x for nm, src in capS for x in (nm, esc(src)))])[0]
+    csh, csd = kv(csa)
+    if csh == "ok" and csd.get("status") != "42":
+        rep.violation("c12:pub-structure-member-type-captures-importers-private-structure", {
+            "why": "a pub structure whose member type is a private structure of its module is spliced into the importer by NAME; the importer's own "
+                   "private structure of that name (another layout) is used there, the two modules disagree about the layout and tail_of(o) "
+                   "returns %s instead of 42" % csd.get("status"), "files": dict(capS), "implementation": csa[:300]})
     # the same leak through the other places where a pub declaration carries an expression or a length of its own module:
     # an array length in a pub structure or in the type of a pub constant that names a private constant
     for what, lib, mainsrc in (
